@@ -345,16 +345,16 @@ Proof.
 Qed.
 
 (* literal_roundtrip, integers: all of Z *)
-Theorem literal_roundtrip_int : forall bias z, option_map parse_literal (render_literal bias (LInt z)) = Some (Some (LInt z)).
+Theorem literal_roundtrip_int : forall z, parse_literal (render_literal (LInt z)) = Some (LInt z).
 Proof.
-  intros bias z. simpl. f_equal. unfold render_Z.
+  intros z. simpl. unfold render_Z.
   pose proof (parse_render_int (Z.to_int z)) as H. rewrite DecimalZ.of_to in H. exact H.
 Qed.
 
-Theorem literal_roundtrip_bool : forall bias b, option_map parse_literal (render_literal bias (LBool b)) = Some (Some (LBool b)).
-Proof. intros bias [|]; reflexivity. Qed.
+Theorem literal_roundtrip_bool : forall b, parse_literal (render_literal (LBool b)) = Some (LBool b).
+Proof. intros [|]; reflexivity. Qed.
 
-Theorem literal_roundtrip_null : forall bias, option_map parse_literal (render_literal bias LNull) = Some (Some LNull).
+Theorem literal_roundtrip_null : parse_literal (render_literal LNull) = Some LNull.
 Proof. reflexivity. Qed.
 
 Lemma has_dq_rev s : has_dq (rev s) = has_dq s.
@@ -364,10 +364,10 @@ Proof.
 Qed.
 
 (* a quoted string is none of the keywords (those do not start with a quote) *)
-Theorem literal_roundtrip_string : forall bias s, has_dq s = false ->
-  option_map parse_literal (render_literal bias (LStr s)) = Some (Some (LStr s)).
+Theorem literal_roundtrip_string : forall s, has_dq s = false ->
+  parse_literal (render_literal (LStr s)) = Some (LStr s).
 Proof.
-  intros bias s H. simpl. rewrite H. f_equal. unfold parse_literal.
+  intros s H. simpl. rewrite H. unfold parse_literal.
   cbn [B list_ascii_of_string bytes_eqb]. change (Ascii.eqb c_dq "n") with false. change (Ascii.eqb c_dq "t") with false.
   change (Ascii.eqb c_dq "f") with false. cbn [andb]. rewrite ?Ascii.eqb_refl.
   rewrite rev_app_distr. cbn [rev app]. rewrite Ascii.eqb_refl. rewrite has_dq_rev, H. cbn [negb andb].
@@ -376,15 +376,14 @@ Qed.
 
 (* a string constant holding a double quote cannot be written in VTL at all (STRING_CONSTANT has no escape); the renderer
    returns such a value bare, which is why the statement is restricted to strings without it *)
-Lemma literal_roundtrip_string_needs_no_dq : exists s, forall bias,
-  option_map parse_literal (render_literal bias (LStr s)) <> Some (Some (LStr s)).
-Proof. exists (B "a""b"). intro. vm_compute. discriminate. Qed.
+Lemma literal_roundtrip_string_needs_no_dq : exists s, parse_literal (render_literal (LStr s)) <> Some (LStr s).
+Proof. exists (B "a""b"). vm_compute. discriminate. Qed.
 
 (* ---- numbers -------------------------------------------------------------------------------------------------------- *)
 
 Definition Dn (neg : bool) (i f : string) : decn := {| dneg := neg; dint := B i; dfrac := B f |}.
 
-(* the full statement is false for the faithful renderer.  Witnesses (each replayed on the engine by the harness):
+(* BEFORE THE FIX (/repo 70d45d5) the full statement was false for the coded renderer.  Witnesses (they failed on the engine too):
    0.0000001 (repr 1e-07: no dot -> IndexError), 10000000000000000000000.0 (repr 1e+22: IndexError),
    0.00001234 (%f keeps 6 decimals -> 0.000012), 12345.678 (%g keeps 6 digits -> 12345.7),
    1234567.5 (%g -> 1.23457e+06, not a VTL number), 1.0 (%g -> 1, an Integer literal), 0.00000015 (-> "0.") *)
@@ -392,26 +391,20 @@ Definition number_witnesses : list decn :=
   [Dn false "" "0000001"; Dn false "10000000000000000000000" ""; Dn false "" "00001234"; Dn false "12345" "678";
    Dn false "1234567" "5"; Dn false "1" ""; Dn false "" "00000015"].
 
-Theorem literal_roundtrip_number_refuted : forall bias,
+Theorem literal_roundtrip_number_refuted_before_fix : forall bias,
   Forall (fun d => dec_canon d = true /\
-                   option_map parse_literal (render_literal bias (LNum d)) <> Some (Some (LNum d))) number_witnesses.
+                   option_map parse_literal (render_float_before_fix bias d) <> Some (Some (LNum d))) number_witnesses.
 Proof.
   intro bias. unfold number_witnesses.
-  repeat (constructor; [split; [reflexivity|]; cbn [render_literal]; unfold render_float;
+  repeat (constructor; [split; [reflexivity|]; unfold render_float_before_fix;
                         match goal with |- context [bias ?d] => generalize (bias d) end;
                         intro b; destruct b; vm_compute; discriminate|]).
   constructor.
 Qed.
 
-Corollary literal_roundtrip_number_refuted_ex : forall bias, exists d,
-  dec_canon d = true /\ option_map parse_literal (render_literal bias (LNum d)) <> Some (Some (LNum d)).
-Proof.
-  intro bias. pose proof (literal_roundtrip_number_refuted bias) as H. inversion H; subst. eexists; eassumption.
-Qed.
-
-(* the renderer raises on floats whose repr has no dot *)
-Theorem render_float_raises : forall bias, render_literal bias (LNum (Dn false "" "0000001")) = None
-                                        /\ render_literal bias (LNum (Dn false "10000000000000000000000" "")) = None.
+(* the old renderer raised on floats whose repr has no dot *)
+Theorem render_float_raises_before_fix : forall bias, render_float_before_fix bias (Dn false "" "0000001") = None
+                                        /\ render_float_before_fix bias (Dn false "10000000000000000000000" "") = None.
 Proof. intro. split; reflexivity. Qed.
 
 (* --- helper lemmas on digit strings *)
@@ -634,13 +627,13 @@ Qed.
 
 (* literal_roundtrip, numbers, the part that holds: fixed-notation repr and either 1..4 decimals with at most 6 significant
    digits, or exactly 5 or 6 decimals *)
-Theorem literal_roundtrip_number_partial : forall bias d,
+Theorem literal_roundtrip_number_partial_before_fix : forall bias d,
   dec_canon d = true -> repr_fixed d = true ->
   (((1 <=? length (dfrac d)) && (length (dfrac d) <=? 4) && (length (dec_sig d) <=? 6))
    || (length (dfrac d) =? 5) || (length (dfrac d) =? 6))%nat = true ->
-  option_map parse_literal (render_literal bias (LNum d)) = Some (Some (LNum d)).
+  option_map parse_literal (render_float_before_fix bias d) = Some (Some (LNum d)).
 Proof.
-  intros bias d Hc Hfix Hdom. cbn [render_literal]. unfold render_float.
+  intros bias d Hc Hfix Hdom. unfold render_float_before_fix.
   assert (Hf : dfrac d <> []).
   { intro E. rewrite E in Hdom. discriminate. }
   rewrite after_dot_repr_fixed by assumption.
@@ -682,9 +675,9 @@ Qed.
 Lemma is_digit_not_dot c : is_digit c = true -> Ascii.eqb c "." = false.
 Proof. intro H. destruct (Ascii.eqb_spec c "."); [subst; discriminate|reflexivity]. Qed.
 
-Theorem literal_roundtrip_number_partial_sci : forall bias d,
+Theorem literal_roundtrip_number_partial_sci_before_fix : forall bias d,
   dec_canon d = true -> dec_exp d = (-5)%Z -> length (dec_sig d) = 2%nat ->
-  option_map parse_literal (render_literal bias (LNum d)) = Some (Some (LNum d)).
+  option_map parse_literal (render_float_before_fix bias d) = Some (Some (LNum d)).
 Proof.
   intros bias d Hc Hx Hs. destruct (sci_case_shape d Hc Hx Hs) as (Hi & a & b & Hf & Hsg).
   pose proof Hc as Hc'. unfold dec_canon in Hc'. repeat (apply andb_prop in Hc'; destruct Hc' as [Hc' ?]).
@@ -692,7 +685,7 @@ Proof.
   { rewrite Hf in H1. rewrite forallb_app in H1. apply andb_prop in H1. destruct H1 as [_ H1]. simpl in H1.
     apply andb_prop in H1. destruct H1 as [Ha H1]. apply andb_prop in H1. tauto. }
   destruct Hab as [Ha Hb].
-  cbn [render_literal]. unfold render_float.
+  unfold render_float_before_fix.
   assert (Had : exists dp, after_dot (py_repr d) = Some dp /\ (4 <? length dp)%nat = true).
   { unfold py_repr, dec_is_zero. rewrite Hsg, Hx.
     change ((-5 <? -4)%Z || (16 <=? -5)%Z) with true. cbv iota.
@@ -711,23 +704,140 @@ Proof.
 Qed.
 
 (* literal_roundtrip for numbers on the closed-form domain of Codec.float_roundtrip_domain *)
-Theorem literal_roundtrip_number_domain : forall bias d, float_roundtrip_domain d = true ->
-  option_map parse_literal (render_literal bias (LNum d)) = Some (Some (LNum d)).
+Theorem literal_roundtrip_number_domain_before_fix : forall bias d, float_roundtrip_domain d = true ->
+  option_map parse_literal (render_float_before_fix bias d) = Some (Some (LNum d)).
 Proof.
   intros bias d H. unfold float_roundtrip_domain in H. apply andb_prop in H. destruct H as [Hc H].
   apply orb_prop in H. destruct H as [H|H].
-  - apply andb_prop in H. destruct H as [Hfix Hd]. apply literal_roundtrip_number_partial; assumption.
+  - apply andb_prop in H. destruct H as [Hfix Hd]. apply literal_roundtrip_number_partial_before_fix; assumption.
   - apply andb_prop in H. destruct H as [Hx Hs]. apply Z.eqb_eq in Hx. apply Nat.eqb_eq in Hs.
-    apply literal_roundtrip_number_partial_sci; assumption.
+    apply literal_roundtrip_number_partial_sci_before_fix; assumption.
 Qed.
 
-(* the specified renderer (print the decimal itself) round-trips every canonical non-integral number *)
-Theorem literal_roundtrip_number_spec : forall d, dec_canon d = true -> dfrac d <> [] ->
-  option_map parse_literal (render_literal_spec (LNum d)) = Some (Some (LNum d)).
+(* ---- the current renderer ------------------------------------------------------------------------------------------ *)
+
+Lemma strip_tz_nonempty_of_head_nonzero s : s <> [] -> head_nonzero s = true -> strip_tz s <> [].
 Proof.
-  intros d Hc Hf. simpl. f_equal. unfold render_float_spec.
-  replace (nz (dfrac d)) with (dfrac d) by (destruct (dfrac d); [congruence|reflexivity]).
-  apply parse_plain_decimal; assumption.
+  intros Hne Hh. unfold strip_tz. intro E. apply (f_equal (@rev ascii)) in E. rewrite rev_involutive in E. simpl in E.
+  revert E. apply strip_lz_nonempty_of_last_nonzero.
+  - intro E. apply (f_equal (@rev ascii)) in E. rewrite rev_involutive in E. simpl in E. congruence.
+  - unfold last_nonzero. rewrite rev_involutive. exact Hh.
+Qed.
+
+(* a canonical decimal without significant digits is 0 *)
+Lemma zero_canon d : dec_canon d = true -> dec_is_zero d = true -> dint d = [] /\ dfrac d = [].
+Proof.
+  intros Hc Hz. unfold dec_canon in Hc. repeat (apply andb_prop in Hc; destruct Hc as [Hc ?]).
+  rename H into Hlast, H0 into Hhd.
+  unfold dec_is_zero, dec_sig in Hz.
+  destruct (dfrac d) as [|f0 fr] eqn:Ef.
+  - rewrite app_nil_r in Hz. split; [|reflexivity].
+    destruct (dint d) as [|i0 ir] eqn:Ei; [reflexivity|]. exfalso.
+    rewrite strip_lz_head_nonzero in Hz by assumption.
+    destruct (strip_tz (i0 :: ir)) eqn:E; [|discriminate].
+    revert E. apply strip_tz_nonempty_of_head_nonzero; [discriminate|assumption].
+  - exfalso. rewrite <- Ef in *.
+    assert (Hl : last_nonzero (strip_lz (dint d ++ dfrac d)) = true).
+    { apply last_nonzero_strip_lz. rewrite last_nonzero_app by (rewrite Ef; discriminate). assumption. }
+    rewrite strip_tz_last_nonzero in Hz by assumption.
+    destruct (strip_lz (dint d ++ dfrac d)) eqn:E; [|discriminate].
+    revert E. apply strip_lz_nonempty_of_last_nonzero.
+    + rewrite Ef. destruct (dint d); discriminate.
+    + rewrite last_nonzero_app by (rewrite Ef; discriminate). assumption.
+Qed.
+
+Lemma digits_no_e s : forallb is_digit s = true -> has_e s = false.
+Proof.
+  unfold has_e. induction s as [|c s IH]; cbn [existsb forallb]; auto. intro H. apply andb_prop in H. destruct H as [Hc Hs].
+  rewrite IH by assumption. rewrite orb_false_r.
+  rewrite (eqb_false_of_neq c "e") by (intro E; subst; discriminate).
+  rewrite (eqb_false_of_neq c "E") by (intro E; subst; discriminate). reflexivity.
+Qed.
+Lemma digits_no_dot s : forallb is_digit s = true -> has_dot s = false.
+Proof.
+  unfold has_dot. induction s as [|c s IH]; cbn [existsb forallb]; auto. intro H. apply andb_prop in H. destruct H as [Hc Hs].
+  rewrite IH by assumption. rewrite orb_false_r. apply eqb_false_of_neq. intro E. subst. discriminate.
+Qed.
+Lemma sign_no_e d : has_e (sign_of d) = false.
+Proof. unfold sign_of. destruct (dneg d); reflexivity. Qed.
+Lemma sign_no_dot d : has_dot (sign_of d) = false.
+Proof. unfold sign_of. destruct (dneg d); reflexivity. Qed.
+Lemma has_e_app a b : has_e (a ++ b) = has_e a || has_e b.
+Proof. apply existsb_app. Qed.
+Lemma has_dot_app a b : has_dot (a ++ b) = has_dot a || has_dot b.
+Proof. apply existsb_app. Qed.
+
+(* the code's renderer IS the specified one: for every canonical decimal (every float, through its repr digits) the three
+   steps repr / Decimal 'f' / append '.0' print  sign, integer digits, point, fraction digits *)
+Theorem render_float_impl_is_spec : forall d, dec_canon d = true -> render_float_impl d = render_float_spec d.
+Proof.
+  intros d Hc. pose proof Hc as Hc'. unfold dec_canon in Hc'. repeat (apply andb_prop in Hc'; destruct Hc' as [Hc' ?]).
+  rename Hc' into Hdi, H1 into Hdf.
+  unfold render_float_impl, render_float_spec, py_repr.
+  destruct (dec_is_zero d) eqn:Z.
+  - destruct (zero_canon d Hc Z) as [Ei Ef]. rewrite Ei, Ef. unfold sign_of. destruct (dneg d); reflexivity.
+  - destruct ((dec_exp d <? -4)%Z || (16 <=? dec_exp d)%Z) eqn:Sci.
+    + (* scientific repr *)
+      match goal with |- context [has_e ?t] => assert (He : has_e t = true) end.
+      { rewrite !has_e_app. cbn [has_e existsb Ascii.eqb Bool.eqb orb andb]. rewrite !orb_true_r. reflexivity. }
+      rewrite He. unfold decimal_f. destruct (dfrac d) as [|f0 fr] eqn:Ef.
+      * rewrite app_nil_r. rewrite has_dot_app, sign_no_dot, digits_no_dot by (apply nz_digits_ok; assumption).
+        cbn [orb]. rewrite <- app_assoc. reflexivity.
+      * rewrite !has_dot_app. cbn [has_dot existsb]. rewrite Ascii.eqb_refl. cbn [orb]. rewrite !orb_true_r. reflexivity.
+    + (* fixed repr *)
+      match goal with |- context [has_e ?t] => assert (He : has_e t = false) end.
+      { rewrite !has_e_app, sign_no_e. rewrite digits_no_e by (apply nz_digits_ok; assumption).
+        change ("." :: nz (dfrac d)) with (["."] ++ nz (dfrac d)). rewrite has_e_app.
+        rewrite (digits_no_e (nz (dfrac d))) by (apply nz_digits_ok; assumption). reflexivity. }
+      rewrite He. rewrite !has_dot_app. cbn [has_dot existsb]. rewrite Ascii.eqb_refl. cbn [orb]. rewrite !orb_true_r. reflexivity.
+Qed.
+
+(* parsing the specified text gives the number back — integral values included (1.0 stays a Number) *)
+Lemma parse_spec_decimal d : dec_canon d = true -> parse_literal (render_float_spec d) = Some (LNum d).
+Proof.
+  intro Hc. unfold render_float_spec. destruct (dfrac d) as [|f0 fr] eqn:Ef.
+  - pose proof Hc as Hc'. unfold dec_canon in Hc'. repeat (apply andb_prop in Hc'; destruct Hc' as [Hc' ?]).
+    rename Hc' into Hdi, H0 into Hhd.
+    assert (Hnum : parse_number (dneg d) (nz (dint d) ++ "." :: nz []) = Some (LNum d)).
+    { unfold parse_number. rewrite span_digits_app; [|apply nz_digits_ok; assumption|reflexivity].
+      destruct (nz (dint d)) eqn:En; [destruct (dint d); discriminate|]. rewrite <- En.
+      cbn [nz Ascii.eqb Bool.eqb andb nonempty forallb]. change (is_digit c_0) with true. cbn [andb].
+      unfold mk_dec.
+      assert (strip_lz (nz (dint d)) = dint d) as ->.
+      { destruct (dint d) eqn:Ei; [reflexivity|]. simpl nz. rewrite <- Ei in *. apply strip_lz_head_nonzero. assumption. }
+      change (strip_tz [c_0]) with (@nil ascii). destruct d; simpl in *; subst; reflexivity. }
+    unfold sign_of. destruct (dneg d) eqn:Eneg.
+    + simpl app. unfold parse_literal. cbn [B list_ascii_of_string bytes_eqb Ascii.eqb Bool.eqb andb].
+      change (Ascii.eqb "-" c_dq) with false. cbn [Ascii.eqb Bool.eqb andb]. exact Hnum.
+    + simpl app. destruct (nz (dint d)) as [|c s] eqn:En; [destruct (dint d); discriminate|].
+      assert (Hcd : is_digit c = true).
+      { pose proof (nz_digits_ok _ Hdi) as Hq. rewrite En in Hq. simpl in Hq. apply andb_prop in Hq. tauto. }
+      rewrite <- app_comm_cons. rewrite parse_literal_digits_start by assumption. exact Hnum.
+  - rewrite <- Ef. replace (nz (dfrac d)) with (dfrac d) by (rewrite Ef; reflexivity).
+    apply parse_plain_decimal; [assumption|rewrite Ef; discriminate].
+Qed.
+
+(* literal_roundtrip, numbers, FULL statement for the code's renderer: every canonical decimal, i.e. every finite float
+   through the digits of its repr (any magnitude, any number of digits, integral or not, -0.0 included) *)
+Theorem literal_roundtrip_number : forall d, dec_canon d = true ->
+  parse_literal (render_literal (LNum d)) = Some (LNum d).
+Proof. intros d Hc. cbn [render_literal]. rewrite render_float_impl_is_spec by assumption. apply parse_spec_decimal; assumption. Qed.
+
+Theorem literal_roundtrip_number_spec : forall d, dec_canon d = true ->
+  parse_literal (render_literal_spec (LNum d)) = Some (LNum d).
+Proof. intros d Hc. apply parse_spec_decimal; assumption. Qed.
+
+(* all literals at once *)
+Definition lit_ok (l : lit) : Prop :=
+  match l with LStr s => has_dq s = false | LNum d => dec_canon d = true | _ => True end.
+Theorem literal_roundtrip : forall l, lit_ok l -> parse_literal (render_literal l) = Some l.
+Proof.
+  intros [| b | z | s | d] H.
+  - apply literal_roundtrip_null.
+  - apply literal_roundtrip_bool.
+  - apply literal_roundtrip_int.
+  - apply literal_roundtrip_string. exact H.
+  - apply literal_roundtrip_number. exact H.
 Qed.
 
 (* ================================================================================================================== *)
